@@ -45,9 +45,9 @@ QUERIES = [
     {"name": "V13-stubs", "fn": poolvalid.validate, "concrete": True, "shards": [{}], "timeout": 300,
      "bound": "stub validation (concrete): 9 scenarios (those of tests/backends/test_local.py plus a skipped dependent and a missing working directory) end in the same states on the deterministic loop with fake children and on real asyncio with real sh children"},
     {"name": "pool", "fn": pool,
-     "shards": {"quick": _sp([S("chain", 1, 3), S("one-tl", 1, 3), S("fork", 2, 3), S("one", 1, 2, faults=True), S("chain", 1, 2, faults=True), S("late", 2, 3), S("join", 2, 2), S("one-tl", 1, 2, races=True), S("chain", 1, 2, races=True), S("one", 1, 2, big_output=True), S("one-tl", 1, 3, big_output=True), S("indep-tl", 1, 3), S("tl-chain", 1, 3)]),
+     "shards": {"quick": _sp([S("chain", 1, 3), S("one-tl", 1, 3), S("fork", 2, 3), S("one", 1, 2, faults=True), S("chain", 1, 2, faults=True), S("late", 2, 3), S("join", 2, 2), S("one-tl", 1, 2, races=True), S("chain", 1, 2, races=True), S("one", 1, 2, big_output=True), S("one-tl", 1, 3, big_output=True), S("indep-tl", 1, 3), S("tl-chain", 1, 3), S("one-tl", 1, 3, ignore_term=True)]),
                 "thorough": _sp([S(s, c, 3) for s in ("chain", "one-tl", "fork", "late", "join", "indep-tl") for c in (1, 2)] + [S("chain", 1, 4), S("fork", 2, 4)] + [S("chain", 1, 3, faults=True), S("fork", 2, 3, faults=True), S("one-tl", 1, 4, races=True), S("chain", 1, 3, races=True)])},
      "timeout": {"quick": 900, "thorough": 3000},
      "bound": "scenarios as C11 plus single tasks with and without time limit; start failure (missing working directory) and log-write failure per task as symbolic bit masks; event script of 2-3 (quick) / 3-4 (thorough) events + drain, incl. two scenarios with back-to-back delivery (an exit racing with a cancel or a time-out) in quick; "
-              "one scenario whose child writes more than the pipes hold (it can only exit while its output is being read); every task final, final state = what happened, finals never change (also under cancel), started at most once, logs complete, no child alive at the end"},
+              "one scenario whose child ignores SIGTERM (repeated cancels, cancel after a time-out); one scenario whose child writes more than the pipes hold (it can only exit while its output is being read); every task final, final state = what happened, finals never change (also under cancel), started at most once, logs complete, no child alive at the end"},
 ]
